@@ -50,6 +50,9 @@ fn gen_input(comp: &Comp, r: &mut Rng, max: usize) -> Vec<u8> {
     let len = r.log_range(1, max as u64) as usize;
     match comp {
         Comp::Bcj(id) => {
+            if r.chance(1, 2) {
+                return crate::props::c11::dense_code(r, *id, len);
+            }
             let exe = exe_for(*id);
             if exe.len() > len + 8192 && r.chance(3, 4) {
                 let s = 4096 + r.usize_below(exe.len() - len - 4096);
